@@ -36,7 +36,7 @@ func main() {
 	clk.Install()
 	root := rng.New(a.Seed)
 	rep := emit.NewReport("C01", a.Seed, a.Tier)
-	rep.Rule = "sequential: 1-3 chains per case - the real default chain (3 of 5 cases; a hotspot rule on parameter 0 of every resource, so that an unhashable argument makes the built-in rule evaluation panic) and custom accounting chains (node-prepare slot first, 0-2 further prepare slots that may panic, 0-5 rule-check slots that pass/return nil/wait/block/panic, 0-3 recording statistic slots, the real stat.DefaultSlot), 1 in 10 custom chains of the known-finding class (a prepare slot may panic before the node is prepared); 8-41 operations: Entry on 1-3 resources (inbound/outbound, batch in {0,1,2,3,7,2^32-1}, 0-3 args incl. unhashable ones), nested and out-of-order Exit with/without error, repeated/late/void Exit, TraceError and TraceCallee on live and exited entries, exit handlers (ok/err), clock ticks, snapshots (node sums, gauge, err/args/address of every live entry's context); the pool choice is observed by pointer identity. concurrent: 4-8 goroutines x 40-120 transactions over the default chain and a custom chain, quiescent totals only. Non-trivial = the case has an admitted, a blocked and a panic-passed entry, a late call on an exited entry, and a context reused while another entry is live; distinct by full input."
+	rep.Rule = "sequential: 1-3 chains per case - the real default chain (3 of 5 cases; a hotspot rule on parameter 0 of every resource, so that an unhashable argument makes the built-in rule evaluation panic) and custom accounting chains (node-prepare slot first, 0-2 further prepare slots that may panic, 0-5 rule-check slots that pass/return nil/wait/block/panic, 0-3 recording statistic slots, the real stat.DefaultSlot), 1 in 10 custom chains of the known-finding class (a prepare slot may panic before the node is prepared); 8-41 operations: Entry on 1-3 resources (inbound/outbound, batch in {0,1,2,3,7,2^32-1}, 0-3 args incl. unhashable ones), nested and out-of-order Exit with/without error, repeated/late/void Exit, TraceError and TraceCallee on live and exited entries, exit handlers (ok/err), clock ticks, snapshots (node sums, gauge, err/args/address of every live entry's context); the pool choice is observed by pointer identity. concurrent: 4-8 goroutines x 40-120 transactions over the default chain and a custom chain, quiescent totals only. Non-trivial = the case has an admitted, a blocked and a panic-passed entry and a late call on an exited entry; distinct by full input (context reuse depends on sync.Pool and is only counted in the distribution)."
 	nCorr := a.Pick(a.N, 150, 2500)
 	nMon := a.Pick(a.Mon, 3000, 50000)
 	nConc := a.Pick(0, 12, 300)
@@ -97,7 +97,7 @@ func main() {
 				rep.Count("chains_custom", 1)
 			}
 		}
-		if st16["blocked"] > 0 && st16["entered"] > 0 && st["passed_by_panic"] > 0 && st["late_exit"]+st["late_trace"] > 0 && reuse > 0 {
+		if st16["blocked"] > 0 && st16["entered"] > 0 && st["passed_by_panic"] > 0 && st["late_exit"]+st["late_trace"] > 0 {
 			b, _ := json.Marshal(c)
 			dist.Add(string(b))
 		}
